@@ -20,7 +20,7 @@ MIN_CASES_PER_SHARD = 50
 CASE_TIMEOUT = 30
 RULE = ("one case = one generated map (3..12 nodes; magnitudes: unit scale, projected metres ~1e7, degrees; classes: random, "
         "dyadic grid, a node millimetres inside a 2-50 km disc at its extreme-longitude point at high latitude, long edges crossing the disc, items within one float32 ulp of the search-box border, items exactly at "
-        "the radius) loaded in InMemMap and SqliteMap, optionally with labels added a second time, 20 % with the package logger at DEBUG, with 4 query points x radii (incl. infinite) x max_elmt; every "
+        "the radius) loaded in InMemMap and SqliteMap, optionally with labels added a second time, 20 % with the package logger at DEBUG, 30 % of the SQLite maps in a reused database file that held another map with the same labels, with 4 query points x radii (incl. infinite) x max_elmt; every "
         "nodes_closeto/edges_closeto answer is compared with the model's full scan. Non-trivial = the true answer is neither "
         "empty nor everything; distinct = hash of (map, query)")
 ANCHORS = [("leuvenmapmatching/map/inmem.py", "InMemMap.nodes_closeto"),
@@ -33,7 +33,7 @@ ANCHORS = [("leuvenmapmatching/map/inmem.py", "InMemMap.nodes_closeto"),
 CELLS = [f"{b}:{q}:{m}" for b in ("inmem", "sqlite") for q in ("nodes", "edges") for m in ("unit", "big", "latlon")]
 FLOORS = {f"cell:{c}": 300 for c in CELLS}
 FLOORS.update({"class:tangent": 40, "class:long_edge": 100, "class:border32": 100, "class:at_radius": 100, "class:infinite": 100,
-               "debug_level_maps": 500, "queries_judged": 8000, "truncations_judged": 1500, "long_edge_through_disc": 60,
+               "debug_level_maps": 500, "reused_database_files": 800, "reused_database_files_single_inserts": 200, "queries_judged": 8000, "truncations_judged": 1500, "long_edge_through_disc": 60,
                "item_exactly_at_radius": 40, "item_within_ulp32_of_box_border": 60})
 ASSUMPTIONS = ["membership is not judged for items whose reference distance is within 1e-9*r (planar; exactly-equal is judged by "
                "rational arithmetic) / 1 mm (lat-lon nodes) / 0.25 m (lat-lon edges) of the radius",
@@ -176,7 +176,7 @@ def gen_case(rng, i, tier):
             shift = 0.0 if rng.random() < 0.4 else (rs[1] * rng.choice([1.5, -2.0]) if mag != "latlon" else 0.001)
             dups.append([l, [p0[0] + shift, p0[1] - shift]])
     return {"map": m, "mag": mag, "cls": cls, "queries": queries, "bulk": rng.random() < 0.7, "dups": dups,
-            "debug": rng.random() < 0.2}
+            "debug": rng.random() < 0.2, "prior": build.prior_spec(rng) if rng.random() < 0.3 else None}
 
 
 def _outside(box, p):
@@ -308,7 +308,12 @@ def _check_case(ctx, case):
     m = case["map"]
     model = MapModel(m)
     im = build.make_inmem(m)
-    sm = build.make_sqlite(m, ctx.scratch, bulk=case.get("bulk", True))
+    # 30 %: the database file is reused (an earlier map with the same labels at other places, parallel roads linked, lived in it)
+    sm = build.make_sqlite(m, ctx.scratch, bulk=case.get("bulk", True), prior=case.get("prior"))
+    if case.get("prior"):
+        ctx.count("reused_database_files")
+        if not case.get("bulk", True):
+            ctx.count("reused_database_files_single_inserts")
     ctx.count(f"class:{case['cls']}")
     try:
         for l, loc in case.get("dups", []):
